@@ -227,6 +227,28 @@ static void do_op(char* tok) {
         if (na != 3 || F[i] == NULL) break;
         strcpy(res, "ok");
         print_to(F[i], 0, "%ld %s\n", $I(strtoll(a[1], NULL, 10)), $S(a[2])); break; }
+      case 'P': {
+        /* one print_to whose pieces may be long: P<i>,<kind>,<len>,<seed>
+           s "<%s>" of a len-byte string; d "%0<len>li|"; w "%<len>s|" of "ab"; l a len-byte literal as the
+           format itself; m "%s=%05li;%s" of two len-byte strings and a number */
+        if (na != 4 || F[i] == NULL) break;
+        size_t n = (size_t)strtoul(a[2], NULL, 10); unsigned long seed = strtoul(a[3], NULL, 10);
+        if (n > 70000) break;
+        char* t1 = malloc(n + 1); char* t2 = malloc(n + 1);
+        for (size_t k = 0; k < n; k++) { t1[k] = (char)('a' + (seed + k * 7) % 26); t2[k] = (char)('a' + (seed + 1 + k * 7) % 26); }
+        t1[n] = 0; t2[n] = 0;
+        long kk = (seed % 2) ? -(long)seed : (long)seed;
+        char fm[64];
+        strcpy(res, "ok");
+        switch (a[1][0]) {
+          case 's': print_to(F[i], 0, "<%s>", $S(t1)); break;
+          case 'd': snprintf(fm, sizeof fm, "%%0%zuli|", n); print_to(F[i], 0, fm, $I(kk)); break;
+          case 'w': snprintf(fm, sizeof fm, "%%%zus|", n); print_to(F[i], 0, fm, $S("ab")); break;
+          case 'l': print_to(F[i], 0, t1); break;
+          case 'm': print_to(F[i], 0, "%s=%05li;%s", $S(t1), $I(kk), $S(t2)); break;
+          default: strcpy(res, "BADOP");
+        }
+        break; }
       case 'q': {
         if (na != 1 || F[i] == NULL) break;
         var k = new_raw(Int, $I(0));
